@@ -616,6 +616,76 @@ def run(repo, run, tier):
     run.check(R1, "util.WrapperMixin.write_doxygen:description-lines", not bad,
               "the description (a multi-line block) is emitted as one string (%s): only its first line gets the comment "
               "leader, the following lines become statements of the generated file" % bad[:1], um.loc(blk))
+    # an output list that so far holds only documentation: its length / emptiness is an option read in disguise
+    nl = 0
+    for modname in MODULES:
+        mod = repo.module(modname)
+        for q, func in mod.functions().items():
+            tainted = _tainted_locals(func)
+            lists = [a.targets[0].id for a in ast.walk(func) if isinstance(a, ast.Assign) and len(a.targets) == 1
+                     and isinstance(a.targets[0], ast.Name) and isinstance(a.value, ast.List) and not a.value.elts
+                     and enclosing_function(a) is func]
+            for name in sorted(set(lists)):
+                fills = []
+                for c in ast.walk(func):
+                    if not isinstance(c, ast.Call):
+                        continue
+                    last = (pyflow.call_name(c) or "").split(".")[-1]
+                    if isinstance(c.func, ast.Attribute) and pyflow.is_name(c.func.value, name) and last in ("append", "extend", "insert"):
+                        pass
+                    elif any(pyflow.is_name(a_, name) for a_ in c.args) and last not in ("len", "bool", "extend", "join", "sorted"):
+                        pass
+                    else:
+                        continue
+                    doc = any(_reads_opt(t, tainted) for t, pol in pyflow.dominating_tests(c, stop=func))
+                    fills.append((c.lineno, doc))
+                if not fills:
+                    continue
+                for r in ast.walk(func):
+                    sized = None
+                    if isinstance(r, ast.Call) and pyflow.is_name(r.func, "len") and r.args and pyflow.is_name(r.args[0], name):
+                        sized = r
+                    elif isinstance(r, (ast.If, ast.While, ast.IfExp)) and (pyflow.is_name(r.test, name) or (
+                            isinstance(r.test, ast.UnaryOp) and pyflow.is_name(r.test.operand, name))):
+                        sized = r.test
+                    if sized is None:
+                        continue
+                    if any(_reads_opt(t, tainted) for t, pol in pyflow.dominating_tests(sized, stop=func)):
+                        continue
+                    before = [d for ln, d in fills if ln < sized.lineno]
+                    later_loop = any(isinstance(p_, (ast.For, ast.While)) for p_ in parent_chain(sized) if p_ is not func)
+                    if not before or later_loop:
+                        continue
+                    nl += 1
+                    run.check(R1, "%s.%s:len(%s)@%d" % (modname, q, name, len(before)), not all(before),
+                              "`%s` reads the size of `%s`, which up to that point has only been filled under a documentation "
+                              "option: the value (and what it decides - whether a file is written, a block emitted) differs "
+                              "between doxygen/debug on and off" % (" ".join(str(mod.seg(sized)).split())[:40], name), mod.loc(sized))
+    run.floor(R1, "size reads of partly filled output lists", nl, 3)
+    # a one-line comment is made of one-line text: the `decl:` string of the YAML file may be a block scalar, so a comment
+    # shows the declaration as re-generated from the parsed form (gen_decl), never the raw text
+    nc = 0
+    for modname in MODULES:
+        mod = repo.module(modname)
+        cl = Classifier(repo, modname)
+        for q, func in mod.functions().items():
+            for c in ast.walk(func):
+                if not (isinstance(c, ast.Call) and isinstance(c.func, ast.Attribute) and c.func.attr in ("append", "insert") and c.args):
+                    continue
+                arg = c.args[-1]
+                if not (isinstance(arg, ast.BinOp) and isinstance(arg.op, ast.Add)):
+                    continue
+                kind, text = cl.const_prefix(arg)
+                if not (kind == "comment" or (kind == "text" and text and text.lstrip().startswith(tuple(cl.leaders)))):
+                    continue
+                nc += 1
+                raw = [x for x in ast.walk(arg) if isinstance(x, ast.Attribute) and x.attr == "decl"
+                       and not isinstance(getattr(x, "_parent", None), ast.Call)]
+                run.check(R1, "%s.%s:comment+%s" % (modname, q, " ".join(str(mod.seg(arg.right)).split())[:30]), not raw,
+                          "the comment line is built from `%s`, the raw text of the YAML file: a multi-line `decl: |` puts its "
+                          "continuation lines into the generated file as code when the option is on"
+                          % (mod.seg(raw[0]) if raw else ""), mod.loc(c))
+    run.floor(R1, "comment lines built by concatenation", nc, 10)
     run.assumptions.append("comment leaders: // /* * for the C family, ! for Fortran, self.comment / "
                            "self.doxygen_* attributes, cstart/cend/fstart/fend constants")
 
